@@ -416,7 +416,6 @@ fn run_type(o: &mut Out, ty: &str, rng: &mut vlib::rng::Rng, more: bool) {
 
 /// FilePath::from_path_and_file, Path::new_normalized, Path::add_path_entry with lengths around the capacity
 fn derived(o: &mut Out, run: &mut u64, rng: &mut vlib::rng::Rng, more: bool) {
-    let c = 255usize;
     let part = |len: usize, k: usize| -> Vec<u8> {
         (0..len).map(|i| if k == 1 && i % 11 == 5 { b'/' } else if k == 2 && i % 6 == 1 { b'.' } else { b'p' + (i % 3) as u8 }).collect()
     };
